@@ -308,6 +308,7 @@ off64_t _GD_Bzip2Seek(struct gd_raw_file_* file, off64_t offset,
 int _GD_Bzip2Close(struct gd_raw_file_ *file)
 {
   struct gd_bzdata *ptr = (struct gd_bzdata *)file->edata;
+  int ret = 0;
   dtrace("%p", file);
 
   ptr->bzerror = 0;
@@ -316,18 +317,20 @@ int _GD_Bzip2Close(struct gd_raw_file_ *file)
   else
     BZ2_bzWriteClose(&ptr->bzerror, ptr->bzfile, 0, NULL, NULL);
 
-  if (ptr->bzerror || fclose(ptr->stream)) {
+  /* BZ2_bz{Read,Write}Close and fclose release the BZFILE and the stream
+   * whether or not they report an error, so the file must be forgotten in
+   * either case */
+  if (fclose(ptr->stream) || ptr->bzerror) {
     file->error = ptr->bzerror;
-    dreturn("%i", 1);
-
-    return 1;
+    ret = 1;
   }
 
   file->idata = -1;
   file->mode = 0;
   free(file->edata);
-  dreturn("%i", 0);
-  return 0;
+  file->edata = NULL;
+  dreturn("%i", ret);
+  return ret;
 }
 
 off64_t _GD_Bzip2Size(int dirfd, struct gd_raw_file_ *file, gd_type_t data_type,
